@@ -245,7 +245,7 @@ func milliRes(r corev1.ResourceList) Res {
 func absTaints(ts []corev1.Taint) []Taint {
 	out := []Taint{}
 	for _, t := range ts {
-		out = append(out, Taint{Key: t.Key, Value: t.Value, Effect: string(t.Effect)})
+		out = append(out, Taint{Key: t.Key, Value: t.Value, Effect: string(t.Effect), TimeAdded: t.TimeAdded != nil})
 	}
 	sort.Slice(out, func(i, j int) bool { return out[i].Key+out[i].Effect < out[j].Key+out[j].Effect })
 	return out
